@@ -26,7 +26,7 @@ TRUSTED = [
 ASSUMPTIONS = ["results are compared by the bit patterns of the public arrays (counts, sum_weights, data, samples)"]
 RULE = ("cases = (entry point, catalog, completion order, worker count); distinct by that tuple; non-trivial when the "
         "completion order differs from the submission order")
-HEADER = "From Verif Require Import Prelude Schedule.\nOpen Scope nat_scope.\n"
+HEADER = "From Verif Require Import Prelude Schedule RoundRobin.\nOpen Scope nat_scope.\n"
 
 
 def bits(a):
@@ -258,6 +258,88 @@ def run_large_patch(ctx):
                      dict(entry="load", workers=w, real_pool=real, patch_records=n), case=("large-patch-load", w, real))
     shutil.rmtree(str(cat.cache_directory), ignore_errors=True)
 
+POPS = {}
+
+
+class PopLogSet(set):
+    """a set that records the order in which pop() hands its elements out; the key attribute survives the deepcopy the
+    iterator makes of the dictionary"""
+
+    def pop(self):
+        j = set.pop(self)
+        POPS.setdefault(self.key, []).append(j)
+        return j
+
+
+def run_job_iterator(ctx, terms, metas):
+    """PatchLinkage.iter_patch_id_pairs against Model/RoundRobin.v: the model is given, per key, the order in which the
+    real sets handed their elements out, and must then reproduce the job list exactly (phase 1, the interleaving of the
+    sweeps, the j > i filter of an autocorrelation, the end of the while loop, the KeyError)."""
+    import yaw
+    from yaw.correlation.measurements import PatchLinkage
+    rng = ctx.rng
+    cfg = yaw.Configuration.create(rmin=1.0, rmax=20.0, unit="arcmin", edges=[0.1, 0.5], max_workers=1)
+    dicts = []
+    for k in range(ctx.n(40, 300)):
+        n = rng.choice([1, 2, 3, 4, 6, 9, 14])
+        keys = rng.sample(range(0, 3 * n + 2), n) if rng.random() < 0.5 else list(range(n))
+        dens = rng.choice([0.0, 0.2, 0.5, 0.9, 1.0])
+        links = {i: {j for j in keys if j == i or rng.random() < dens} for i in keys}
+        kind = "generated"
+        if rng.random() < 0.5:       # symmetric, as from_catalogs builds them
+            for i in keys:
+                for j in list(links[i]):
+                    links[j].add(i)
+            kind = "generated-symmetric"
+        if rng.random() < 0.15 and n > 0:     # malformed: a key whose set lacks the key itself
+            links[rng.choice(keys)].discard(rng.choice(keys))
+            kind = "generated-maybe-malformed"
+        dicts.append((kind, links))
+    # dictionaries of real catalogs
+    for k in range(ctx.n(2, 6)):
+        npatch = rng.choice([3, 5, 12])
+        ref, unk, rand = make_cats(ctx, rng.randrange(10 ** 6), npatch, suffix="_rr%d" % k)
+        lk = PatchLinkage.from_catalogs(cfg, ref, unk)
+        dicts.append(("from_catalogs", {int(i): {int(j) for j in v} for i, v in lk.patch_links.items()}))
+        for c in (ref, unk, rand):
+            shutil.rmtree(str(c.cache_directory), ignore_errors=True)
+    for k, (kind, links) in enumerate(dicts):
+        for auto in (True, False):
+            POPS.clear()
+            logged = {}
+            for i, v in links.items():
+                s = PopLogSet(v)
+                s.key = i
+                logged[i] = s
+            linkage = PatchLinkage(cfg, logged)
+            try:
+                got = [(int(a), int(b)) for a, b in linkage.iter_patch_id_pairs(auto=auto)]
+            except KeyError:
+                got = None
+            if any(set(v) != links[i] for i, v in logged.items()):
+                ctx.fail("c05-job-iterator-empties-the-linkage", "iter_patch_id_pairs changed the dictionary of the linkage itself",
+                         dict(links={str(i): sorted(v) for i, v in links.items()}, auto=auto), case=("rr", k, auto))
+            st = []
+            for i, v in links.items():
+                order = ([i] if i in v else []) + POPS.get(i, [])
+                if got is None:
+                    order = order + sorted(set(v) - set(order))
+                if set(order) != set(v) or len(order) != len(v):
+                    ctx.disagree("job-iterator-pop-log", ("rr", k, auto), "the sets were not emptied by pop() alone: %r popped from %r" % (order, sorted(v)))
+                    order = sorted(v)
+                st.append(fq.pair(fq.nat(i), fq.nlist(order)))
+            terms.append("c05_iter_case %s %s %s" % (fq.b(auto), fq.lst(st),
+                         "None" if got is None else "(Some %s)" % fq.lst([fq.pair(fq.nat(a), fq.nat(b)) for a, b in got])))
+            metas.append((("rr", k, auto), dict(entry="iter_patch_id_pairs", kind=kind, auto=auto, links={str(i): sorted(v) for i, v in links.items()}, got=got)))
+            ctx.count(key=("rr", k, auto, kind), nontrivial=got is not None and len(got) > len(links), kind="job-iterator/%s/%s" % (kind, "keyerror" if got is None else "jobs"))
+            # independent of the model: the documented set of jobs, each once
+            if got is not None:
+                want = {(i, i) for i in links} | {(i, j) for i, v in links.items() for j in v if j != i and (not auto or j > i)}
+                if len(got) != len(set(got)) or set(got) != want:
+                    ctx.fail("c05-job-list-not-the-linked-pairs-once", "iter_patch_id_pairs(auto=%s) lists %d jobs, %d distinct, documented %d"
+                             % (auto, len(got), len(set(got)), len(want)), dict(links={str(i): sorted(v) for i, v in links.items()}, auto=auto, got=got),
+                             case=("rr", k, auto))
+
 
 def run(ctx):
     import yaw
@@ -383,6 +465,7 @@ def run(ctx):
                          dict(workers=w, edges_first=edges, edges_second=edges_b), case=(rep, "real-history", w))
         for c in (ref, unk, rand):
             shutil.rmtree(str(c.cache_directory), ignore_errors=True)
+    run_job_iterator(ctx, terms, metas)
     run_generic(ctx)
     run_large_patch(ctx)
     run_inputs_reused(ctx)
